@@ -6,6 +6,8 @@ from harness import simdrv as S
 from harness import simprops as SP
 
 ID = 'C12'
+BRIDGE_IMPORTS = 'From Eudoxia Require Import Model.SchedSrc.\n'
+BRIDGE = [('sched_priority', 'ext_sched_priority = sched_priority_src', 'reflexivity.')]
 MASK = S.M_DEC | S.M_RES | S.M_POOLS | S.M_STATES
 ASSUMPTIONS = ['"ready, pending operator": state PENDING with all parents COMPLETED, of a pipeline that has arrived; '
                'operators of a retry that the scheduler dropped (FAILED) are not pending']
